@@ -254,6 +254,10 @@ def run_property(pid: str, tier: str) -> int:
         for jidx, job in enumerate(jobs):
             if only and job.name != only:
                 continue
+            if failures and os.environ.get("VERIF_STOP_ON_FAIL"):
+                # development runs against seeded changes only: one failing job is enough to know the change is caught
+                exhaustive_all = False
+                continue
             tj = time.time()
             cubes = pool.apply(_w_cubes, ((pid, tier, jidx),))
             import random
